@@ -107,7 +107,7 @@ mod wasm;
 #[cfg(target_arch = "wasm32")]
 pub use wasm::*;
 
-#[cfg(fast_qr_verif)]
+#[cfg(all(fast_qr_verif, not(fast_qr_verif_wasm_only)))]
 #[doc(hidden)]
 #[allow(missing_docs)]
 pub mod verif;
